@@ -14,4 +14,5 @@ let table = [
   ("dispatch", Model.entry_dispatch);
   ("abi", Model.entry_abi);
   ("firstevent", Model.entry_firstevent);
+  ("sc", Model.entry_sc);
 ]
